@@ -76,11 +76,11 @@ Section Deque.
     unfold cell. generalize (N.to_nat i). clear i. induction n as [|n IH]; intros [|i]; cbn; auto.
   Qed.
 
-  Theorem dq_init_rep n : 1 <= n <= UHALF -> exists s, dq_init key n = Good s /\ dq_rep s [].
+  Theorem dq_init_rep n : 1 <= n <= UHALF -> exists s, dq_init key n = Good s /\ dq_rep s [] /\ f_modulus (q_f s) = n.
   Proof.
     intros Hn. unfold dq_init, dq_init_prog, q0. qstep.
     unfold dq_init_0, dq_init_1, dq_init_2, dq_init_3. qstep.
-    eexists; split; [reflexivity|]. constructor; cbn [q_f q_arr f_size f_modulus f_head length]; try lia.
+    eexists; split; [reflexivity|]. split; [|reflexivity]. constructor; cbn [q_f q_arr f_size f_modulus f_head length]; try lia.
     - unfold alen. rewrite repeat_length. lia.
     - intros [|i] x; discriminate.
   Qed.
@@ -101,14 +101,14 @@ Section Deque.
   Proof. intros. unfold dq_push_2, dq_push_1. cbn [f_size f_modulus f_head]. split; usolve. Qed.
 
   Theorem dq_push_rep s l x : dq_rep s l -> f_size (q_f s) < f_modulus (q_f s) ->
-    exists s', dq_push key s x = Good s' /\ dq_rep s' (l ++ [x]).
+    exists s', dq_push key s x = Good s' /\ dq_rep s' (l ++ [x]) /\ f_modulus (q_f s') = f_modulus (q_f s).
   Proof.
     destruct s as [[sz m h] a]. intros [R1 R2 R3 R4 R5 R6] Hf. cbn [q_f q_arr f_size f_modulus f_head] in *.
     unfold dq_push, dq_push_prog. qstep.
     assert (E0 : dq_push_0 (mkqf sz m h) 0 = true) by (unfold dq_push_0; cbn [f_size f_modulus]; lia). rewrite E0. qstep.
     destruct (push_ix sz m h R2 R3 Hf) as [E2 E1]. rewrite E2, E1.
     assert (W : widx m h (sz + 1) < alen a) by (rewrite R1; unfold widx; ncases; lia).
-    rewrite (wr_ok _ _ _ W). qstep. eexists; split; [reflexivity|].
+    rewrite (wr_ok _ _ _ W). qstep. eexists; split; [reflexivity|]. split; [|reflexivity].
     constructor; cbn [q_f q_arr f_size f_modulus f_head]; try lia.
     - rewrite alen_upd; auto.
     - rewrite app_length; cbn [length]; lia.
@@ -125,7 +125,7 @@ Section Deque.
   Proof. intros. unfold dq_shift_2, dq_shift_1. cbn [f_size f_modulus f_head]. split; usolve. Qed.
 
   Theorem dq_shift_rep s x l : dq_rep s (x :: l) ->
-    exists s', dq_shift key s = Good (x, s') /\ dq_rep s' l.
+    exists s', dq_shift key s = Good (x, s') /\ dq_rep s' l /\ f_modulus (q_f s') = f_modulus (q_f s).
   Proof.
     destruct s as [[sz m h] a]. intros [R1 R2 R3 R4 R5 R6]. cbn [q_f q_arr f_size f_modulus f_head length] in *.
     unfold dq_shift, dq_shift_prog. qstep.
@@ -133,7 +133,7 @@ Section Deque.
     destruct (shift_ix sz m h R2 R3 ltac:(lia)) as [E2 E1]. rewrite E2, E1.
     unfold dq_shift_3. cbn [f_head].
     pose proof (R6 0%nat x eq_refl) as C0. change (N.of_nat 0 + 1) with 1 in C0.
-    rewrite (rd_cell _ _ _ C0). qstep. eexists; split; [reflexivity|].
+    rewrite (rd_cell _ _ _ C0). qstep. eexists; split; [reflexivity|]. split; [|reflexivity].
     constructor; cbn [q_f q_arr f_size f_modulus f_head]; try lia.
     - unfold widx; ncases; lia.
     - intros i y Hi. assert (N.of_nat i + 1 < sz) by (apply nth_error_Some_lt in Hi; lia).
@@ -148,7 +148,7 @@ Section Deque.
   Proof. intros. unfold dq_unshift_3, dq_unshift_1. cbn [f_size f_modulus f_head]. split; usolve. Qed.
 
   Theorem dq_unshift_rep s l x : dq_rep s l -> f_size (q_f s) < f_modulus (q_f s) ->
-    exists s', dq_unshift key s x = Good s' /\ dq_rep s' (x :: l).
+    exists s', dq_unshift key s x = Good s' /\ dq_rep s' (x :: l) /\ f_modulus (q_f s') = f_modulus (q_f s).
   Proof.
     destruct s as [[sz m h] a]. intros [R1 R2 R3 R4 R5 R6] Hf. cbn [q_f q_arr f_size f_modulus f_head] in *.
     unfold dq_unshift, dq_unshift_prog. qstep.
@@ -156,7 +156,7 @@ Section Deque.
     destruct (unshift_ix sz m h R2 R3 Hf) as [E3 E1].
     unfold dq_unshift_2 at 1. cbn [f_head].
     assert (W : h < alen a) by lia. rewrite (wr_ok _ _ _ W). qstep. rewrite E3, E1.
-    eexists; split; [reflexivity|].
+    eexists; split; [reflexivity|]. split; [|reflexivity].
     constructor; cbn [q_f q_arr f_size f_modulus f_head length]; try lia.
     - rewrite alen_upd; auto.
     - ncases; lia.
@@ -177,7 +177,7 @@ Section Deque.
   Proof. intros. unfold dq_pop_2, dq_pop_1. cbn [f_size f_modulus f_head]. split; usolve. Qed.
 
   Theorem dq_pop_rep s l x : dq_rep s (l ++ [x]) ->
-    exists s', dq_pop key s = Good (x, s') /\ dq_rep s' l.
+    exists s', dq_pop key s = Good (x, s') /\ dq_rep s' l /\ f_modulus (q_f s') = f_modulus (q_f s).
   Proof.
     destruct s as [[sz m h] a]. intros [R1 R2 R3 R4 R5 R6]. cbn [q_f q_arr f_size f_modulus f_head] in *.
     rewrite app_length in R4. cbn [length] in R4.
@@ -187,7 +187,7 @@ Section Deque.
     assert (C : cell a (widx m h sz) = Some (Some x)).
     { replace sz with (N.of_nat (length l) + 1) by lia. apply R6. rewrite nth_error_app2 by lia.
       rewrite Nat.sub_diag. reflexivity. }
-    rewrite (rd_cell _ _ _ C). qstep. eexists; split; [reflexivity|].
+    rewrite (rd_cell _ _ _ C). qstep. eexists; split; [reflexivity|]. split; [|reflexivity].
     constructor; cbn [q_f q_arr f_size f_modulus f_head]; try lia.
     intros i y Hi. apply R6. rewrite nth_error_app1; auto. apply nth_error_Some_lt in Hi; auto.
   Qed.
@@ -225,14 +225,14 @@ Section Deque.
   Qed.
 
   Theorem dq_set_rep s l i x : dq_rep s l -> (i < length l)%nat ->
-    exists s', dq_set key s (N.of_nat i) x = Good s' /\ dq_rep s' (lset l i x).
+    exists s', dq_set key s (N.of_nat i) x = Good s' /\ dq_rep s' (lset l i x) /\ f_modulus (q_f s') = f_modulus (q_f s).
   Proof.
     destruct s as [[sz m h] a]. intros [R1 R2 R3 R4 R5 R6] Hi. cbn [q_f q_arr f_size f_modulus f_head] in *.
     unfold dq_set, dq_set_prog. qstep.
     assert (E0 : dq_set_0 (mkqf sz m h) (N.of_nat i) = true) by (unfold dq_set_0; cbn [f_size]; lia). rewrite E0. qstep.
     destruct (get_ix sz m h (N.of_nat i) R2 R3 ltac:(lia)) as [_ E1]. rewrite E1.
     assert (W : widx m h (N.of_nat i + 1) < alen a) by (rewrite R1; unfold widx; ncases; lia).
-    rewrite (wr_ok _ _ _ W). qstep. eexists; split; [reflexivity|].
+    rewrite (wr_ok _ _ _ W). qstep. eexists; split; [reflexivity|]. split; [|reflexivity].
     constructor; cbn [q_f q_arr f_size f_modulus f_head]; try lia.
     - rewrite alen_upd; auto.
     - rewrite lset_length; auto.
